@@ -10,6 +10,7 @@ import (
 	"go/token"
 	"math/big"
 	"regexp"
+	"sort"
 	"strconv"
 	"strings"
 
@@ -102,12 +103,127 @@ func main() {
 	dante := ParseDir(repo + "/x/devgas/v1/ante")
 	df := Funcs(dante)
 
-	pkg := &pkgInfo{funcs: df}
+	pkg := &pkgInfo{funcs: df, structs: structFields(dante)}
+
+	// The ante functions are found by what they do, not by their (private) names:
+	//   settle      = the function that calls the bank's SendCoinsFromModuleToAccount
+	//   recipients  = the function that type-asserts a message to *…MsgExecuteContract
+	//   payout      = the function that calls settle
+	//   allowed     = the package function whose result is the first argument of FeePayLogic inside settle
+	// FeePayLogic is exported API (tests call it): by name, else the function building sdk.NewCoin in a loop.
+	var lookupNotes []string
+	var fnames []string
+	for n := range df {
+		fnames = append(fnames, n)
+	}
+	sort.Strings(fnames)
+	findFn := func(role string, pred func(fd *ast.FuncDecl) bool) *ast.FuncDecl {
+		var hit []*ast.FuncDecl
+		for _, n := range fnames {
+			if fd := df[n]; fd.Body != nil && pred(fd) {
+				hit = append(hit, fd)
+			}
+		}
+		if len(hit) == 1 {
+			return hit[0]
+		}
+		lookupNotes = append(lookupNotes, fmt.Sprintf("%s: %d candidates", role, len(hit)))
+		return nil
+	}
+	hasCall := func(fd *ast.FuncDecl, ok func(c *ast.CallExpr) bool) bool {
+		found := false
+		ast.Inspect(fd.Body, func(n ast.Node) bool {
+			if c, isC := n.(*ast.CallExpr); isC && ok(c) {
+				found = true
+			}
+			return !found
+		})
+		return found
+	}
+	calleeLast := func(c *ast.CallExpr) string {
+		switch f := c.Fun.(type) {
+		case *ast.Ident:
+			return f.Name
+		case *ast.SelectorExpr:
+			return f.Sel.Name
+		}
+		return ""
+	}
+	settleFn := findFn("settle", func(fd *ast.FuncDecl) bool {
+		return hasCall(fd, func(c *ast.CallExpr) bool { return calleeLast(c) == "SendCoinsFromModuleToAccount" })
+	})
+	isExecType := func(e ast.Expr) bool {
+		t := Nospace(e)
+		return strings.HasPrefix(t, "*") && strings.HasSuffix(t, ".MsgExecuteContract")
+	}
+	recipientsFn := findFn("recipients", func(fd *ast.FuncDecl) bool {
+		found := false
+		ast.Inspect(fd.Body, func(n ast.Node) bool {
+			switch x := n.(type) {
+			case *ast.TypeAssertExpr:
+				if x.Type != nil && isExecType(x.Type) {
+					found = true
+				}
+			case *ast.CaseClause:
+				for _, e := range x.List {
+					if isExecType(e) {
+						found = true
+					}
+				}
+			}
+			return !found
+		})
+		return found
+	})
+	var payoutFn *ast.FuncDecl
+	if settleFn != nil {
+		payoutFn = findFn("payout", func(fd *ast.FuncDecl) bool {
+			return fd != settleFn && hasCall(fd, func(c *ast.CallExpr) bool { return calleeLast(c) == settleFn.Name.Name })
+		})
+	}
+	feePayFn := df["FeePayLogic"]
+	if feePayFn == nil {
+		feePayFn = findFn("FeePayLogic", func(fd *ast.FuncDecl) bool {
+			return fd != settleFn && hasCall(fd, func(c *ast.CallExpr) bool { return calleeLast(c) == "NewCoin" })
+		})
+	}
+	var allowedFn *ast.FuncDecl
+	if settleFn != nil && feePayFn != nil {
+		ast.Inspect(settleFn.Body, func(n ast.Node) bool {
+			c, ok := n.(*ast.CallExpr)
+			if !ok || calleeLast(c) != feePayFn.Name.Name || len(c.Args) == 0 || allowedFn != nil {
+				return true
+			}
+			arg := c.Args[0]
+			if id, isId := arg.(*ast.Ident); isId { // through a single-definition local
+				if d, has := newScope(pkg, settleFn).defs[id.Name]; has {
+					arg = d
+				}
+			}
+			if ac, isCall := arg.(*ast.CallExpr); isCall {
+				allowedFn = df[calleeLast(ac)]
+			}
+			return true
+		})
+		if allowedFn == nil {
+			lookupNotes = append(lookupNotes, "allowed: not found")
+		}
+	}
+	// private function names are printed by role
+	byRole := func(str string) string {
+		if allowedFn != nil {
+			str = strings.ReplaceAll(str, allowedFn.Name.Name+"(", "allowed(")
+		}
+		if feePayFn != nil && feePayFn.Name.Name != "FeePayLogic" {
+			str = strings.ReplaceAll(str, feePayFn.Name.Name+"(", "FeePayLogic(")
+		}
+		return str
+	}
 
 	// FeePayLogic: the coin that is added per fee coin, with locals inlined, parameters P<i>, and loop
 	// variables written elem(<ranged expr>) — e.g. sdk.NewCoin(elem(P0.Sort()).Denom, P1.MulInt(…).QuoInt64(int64(P2)).RoundInt())
 	rewardCoin := ""
-	if fd := df["FeePayLogic"]; fd != nil && fd.Body != nil {
+	if fd := feePayFn; fd != nil && fd.Body != nil {
 		sc := newScope(pkg, fd)
 		ast.Inspect(fd.Body, func(n ast.Node) bool {
 			if c, ok := n.(*ast.CallExpr); ok && rewardCoin == "" {
@@ -122,7 +238,7 @@ func main() {
 
 	// getWithdrawAddressesFromMsgs: asserted message types, ranged expressions, package-local calls
 	var asserted, rcalls, rranges []string
-	if fd := df["getWithdrawAddressesFromMsgs"]; fd != nil && fd.Body != nil {
+	if fd := recipientsFn; fd != nil && fd.Body != nil {
 		sc := newScope(pkg, fd)
 		seen := map[string]bool{}
 		add := func(l *[]string, k, v string) {
@@ -144,7 +260,7 @@ func main() {
 					add(&asserted, "t", Nospace(e))
 				}
 			case *ast.RangeStmt:
-				add(&rranges, "r", sc.resolve(x.X, 0))
+				add(&rranges, "r", paramByType(sc, x.X))
 			case *ast.ForStmt:
 				if r := sc.forRange(x); r != "" {
 					add(&rranges, "r", r)
@@ -153,12 +269,23 @@ func main() {
 				}
 			case *ast.CallExpr:
 				name := sc.funName(x.Fun)
+				if sel, isSel := x.Fun.(*ast.SelectorExpr); isSel {
+					if id, isId := sel.X.(*ast.Ident); isId && sc.ptype[id.Name] != "" && !strings.Contains(sc.ptype[id.Name], ".") &&
+						ast.IsExported(sc.ptype[id.Name]) {
+						name = "R." + sc.ptype[id.Name] + "." + sel.Sel.Name // a package interface handed in as a parameter
+					}
+				}
 				if strings.HasPrefix(name, "R.") || pkg.funcs[name] != nil {
-					add(&rcalls, "c", name)
+					add(&rcalls, "c", strings.TrimPrefix(name, "R."))
 				}
 			}
 			return true
 		})
+	}
+	for i := range asserted { // import alias of the wasm types package does not matter
+		if isExecTypeStr(asserted[i]) {
+			asserted[i] = "*wasmtypes.MsgExecuteContract"
+		}
 	}
 	printList("recipients_asserted_types", asserted)
 	printList("recipients_local_calls", rcalls)
@@ -167,7 +294,7 @@ func main() {
 	// settleFeePayments: the bank send with everything inlined, and what its enclosing loop ranges over
 	sendCall, sendLoop := "", ""
 	nSends := 0
-	if fd := df["settleFeePayments"]; fd != nil && fd.Body != nil {
+	if fd := settleFn; fd != nil && fd.Body != nil {
 		sc := newScope(pkg, fd)
 		var loops []string
 		var walk func(n ast.Node)
@@ -192,7 +319,7 @@ func main() {
 			case *ast.CallExpr:
 				if strings.HasSuffix(sc.funName(x.Fun), "SendCoinsFromModuleToAccount") {
 					nSends++
-					sendCall = sc.resolve(x, 0)
+					sendCall = byRole(sc.resolve(x, 0))
 					sendLoop = strings.Join(loops, "/")
 				}
 			}
@@ -218,14 +345,29 @@ func main() {
 	// devGasPayout: arguments of the settle call (inlined) and the EnableFeeShare guard before it
 	var settleArgs []string
 	guardEnabled := false
-	if fd := df["devGasPayout"]; fd != nil && fd.Body != nil {
+	if fd := payoutFn; fd != nil && fd.Body != nil {
 		sc := newScope(pkg, fd)
 		settlePos := token.Pos(0)
 		ast.Inspect(fd.Body, func(n ast.Node) bool {
-			if c, ok := n.(*ast.CallExpr); ok && strings.HasSuffix(sc.funName(c.Fun), "settleFeePayments") && settlePos == 0 {
+			if c, ok := n.(*ast.CallExpr); ok && settleFn != nil && calleeLast(c) == settleFn.Name.Name && settlePos == 0 {
 				settlePos = c.Pos()
 				for _, a := range c.Args {
-					settleArgs = append(settleArgs, sc.resolve(a, 0))
+					str := sc.resolve(a, 0)
+					// the recipients collector, method or plain function: recipients(<the message list it is given>)#k
+					if id, isId := a.(*ast.Ident); isId && recipientsFn != nil {
+						if d, has := sc.defs[id.Name]; has && sc.count[id.Name] == 1 {
+							if rc, isCall := d.(*ast.CallExpr); isCall && calleeLast(rc) == recipientsFn.Name.Name {
+								msgs := "?"
+								for _, ra := range rc.Args {
+									if r := sc.resolve(ra, 0); strings.HasSuffix(r, ".GetMsgs()") {
+										msgs = r
+									}
+								}
+								str = "recipients(" + msgs + ")" + sc.tag[id.Name]
+							}
+						}
+					}
+					settleArgs = append(settleArgs, str)
 				}
 			}
 			return true
@@ -245,11 +387,12 @@ func main() {
 	}
 	printList("settle_args", settleArgs)
 	fmt.Printf("Definition payout_guard_enabled : bool := %s.\n", CoqBool(guardEnabled))
+	printList("ante_lookup_notes", lookupNotes)
 
 	// getAllowedFees: every `.Add(` on the result runs at most once per fee coin: it sits in one loop (the coin
 	// loop), or in an inner loop whose block leaves that loop (break / return) right after the Add
 	addsOnce, adds := true, 0
-	if fd := df["getAllowedFees"]; fd != nil && fd.Body != nil {
+	if fd := allowedFn; fd != nil && fd.Body != nil {
 		var loops []ast.Node
 		var walk func(n ast.Node, block *ast.BlockStmt)
 		walk = func(n ast.Node, block *ast.BlockStmt) {
@@ -1047,6 +1190,18 @@ func paramFacts(repo string, types []File, kf map[string]*ast.FuncDecl, kpkg *pk
 	fmt.Printf("Definition genesis_validate_checks_params : bool := %s.\n", CoqBool(gsChecks))
 }
 
+// paramByType prints a ranged parameter as param(<declared type>): its position depends on how the helper is plumbed
+func paramByType(sc *scope, e ast.Expr) string {
+	if id, ok := e.(*ast.Ident); ok && sc.ptype[id.Name] != "" {
+		return "param(" + sc.ptype[id.Name] + ")"
+	}
+	return sc.resolve(e, 0)
+}
+
+func isExecTypeStr(t string) bool {
+	return strings.HasPrefix(t, "*") && strings.HasSuffix(t, ".MsgExecuteContract")
+}
+
 // ---------------------------------------------------------------- a small expression normaliser
 //
 // resolve prints an expression with the receiver as R, parameters as P<i>, single-definition locals replaced by
@@ -1054,7 +1209,36 @@ func paramFacts(repo string, types []File, kf map[string]*ast.FuncDecl, kpkg *pk
 // elem(X), and calls of unexported straight-line helpers of the package replaced by their returned expression.
 // Locals with several definitions print as L?.  Names of locals therefore never show up in a fact.
 
-type pkgInfo struct{ funcs map[string]*ast.FuncDecl }
+type pkgInfo struct {
+	funcs   map[string]*ast.FuncDecl
+	structs map[string]map[string]string // struct type -> field -> declared type (printed instead of the private field name)
+}
+
+// structFields collects the field types of the package's struct types
+func structFields(files []File) map[string]map[string]string {
+	out := map[string]map[string]string{}
+	for _, fl := range files {
+		ast.Inspect(fl.F, func(n ast.Node) bool {
+			ts, ok := n.(*ast.TypeSpec)
+			if !ok {
+				return true
+			}
+			st, ok := ts.Type.(*ast.StructType)
+			if !ok {
+				return true
+			}
+			m := map[string]string{}
+			for _, f := range st.Fields.List {
+				for _, nm := range f.Names {
+					m[nm.Name] = strings.TrimPrefix(Nospace(f.Type), "*")
+				}
+			}
+			out[ts.Name.Name] = m
+			return true
+		})
+	}
+	return out
+}
 
 type scope struct {
 	pkg   *pkgInfo
@@ -1065,15 +1249,23 @@ type scope struct {
 	elem  map[string]ast.Expr // range value var -> ranged expr
 	idx   map[string]bool     // range key / for-loop index
 	subst map[string]string   // helper inlining: param -> resolved argument
+	recv  string              // receiver identifier
+	ftype map[string]string   // receiver field -> declared type
+	ptype map[string]string   // parameter -> declared type
 }
 
 func newScope(pkg *pkgInfo, fd *ast.FuncDecl) *scope {
 	sc := &scope{pkg: pkg, ren: map[string]string{}, defs: map[string]ast.Expr{}, tag: map[string]string{}, count: map[string]int{},
 		elem: map[string]ast.Expr{}, idx: map[string]bool{}}
+	sc.ptype = map[string]string{}
 	if fd.Recv != nil {
 		for _, f := range fd.Recv.List {
 			for _, n := range f.Names {
 				sc.ren[n.Name] = "R"
+				sc.recv = n.Name
+				if pkg != nil && pkg.structs != nil {
+					sc.ftype = pkg.structs[strings.TrimPrefix(Nospace(f.Type), "*")]
+				}
 			}
 		}
 	}
@@ -1081,6 +1273,7 @@ func newScope(pkg *pkgInfo, fd *ast.FuncDecl) *scope {
 	for _, f := range fd.Type.Params.List {
 		for _, n := range f.Names {
 			sc.ren[n.Name] = fmt.Sprintf("P%d", i)
+			sc.ptype[n.Name] = strings.TrimPrefix(Nospace(f.Type), "*")
 			i++
 		}
 	}
@@ -1175,6 +1368,9 @@ func (sc *scope) funName(e ast.Expr) string {
 		return x.Name
 	case *ast.SelectorExpr:
 		if id, ok := x.X.(*ast.Ident); ok {
+			if id.Name == sc.recv && sc.ftype != nil && sc.ftype[x.Sel.Name] != "" {
+				return "R." + sc.ftype[x.Sel.Name]
+			}
 			if r, ok := sc.ren[id.Name]; ok {
 				return r + "." + x.Sel.Name
 			}
@@ -1219,6 +1415,9 @@ func (sc *scope) resolve(e ast.Expr, depth int) string {
 	case *ast.ParenExpr:
 		return "(" + sc.resolve(x.X, depth+1) + ")"
 	case *ast.SelectorExpr:
+		if id, ok := x.X.(*ast.Ident); ok && id.Name == sc.recv && sc.subst == nil && sc.ftype != nil && sc.ftype[x.Sel.Name] != "" {
+			return "R." + sc.ftype[x.Sel.Name] // a private field of the receiver is printed by its declared type
+		}
 		return sc.resolve(x.X, depth+1) + "." + x.Sel.Name
 	case *ast.StarExpr:
 		return "*" + sc.resolve(x.X, depth+1)
